@@ -179,7 +179,7 @@ def _test_feature_files():
         return []
 
 
-FIXED = ["order", "feature-order-vs-lookup-order", "two-lookups-one-glyph", "script-resets-lookupflag", "vertical-values", "format2-contexts", "mixed-brackets", "variable-scalars", "known:inline-lig-prefix", "known:ignore-multi-marked", "known:contourpoint-zero", "pair-subtables", "marks", "chain-positions",
+FIXED = ["order", "feature-order-vs-lookup-order", "two-lookups-one-glyph", "script-resets-lookupflag", "vertical-values", "format2-contexts", "mixed-brackets", "variable-scalars", "device-boundaries", "reject:device-out-of-range", "known:inline-lig-prefix", "known:ignore-multi-marked", "known:contourpoint-zero", "pair-subtables", "marks", "chain-positions",
          "ligature-longest", "flags"]
 
 
@@ -470,11 +470,26 @@ def judge_program(ctx, prog, texts, label, sample=False):
         ctx.violation(exc_mech("compile", e, clause=label), "compiling a generated feature file raised %s: %s" % (type(e).__name__, str(e)[:300]),
                       {"fea": fea[:6000]})
         return
+    decoded = set()
     for e in hooks.events:
         if e[0] == "walked":
+            decoded.update(tuple(d) for d in e[2].get("_devices", ()))
             for k_, v_ in e[2].items():
                 if k_[:5] in ("GSUB5", "GSUB6", "GPOS7", "GPOS8") or k_.startswith(("Device", "VariationIndex")):
                     ctx.note("written " + k_, v_)
+    if "devices_sure" in prog:
+        # the Device tables struct-decoded from the written bytes are those of the feature file
+        ctx.judged()
+        want_all = {tuple(d[:3]) + (tuple(d[3]),) for d in prog["devices_all"]}
+        want_sure = {tuple(d[:3]) + (tuple(d[3]),) for d in prog["devices_sure"]}
+        if not (want_sure <= decoded <= want_all):
+            ctx.violation({"kind": "device-decode", "what": "Device tables in the written GPOS differ from the <device> statements"},
+                          "decoded Device tables %s; the feature file declares %s" % (sorted(decoded - want_all)[:4], sorted(want_sure - decoded)[:4]),
+                          {"fea": fea[:6000], "unexpected": sorted(decoded - want_all)[:10], "missing": sorted(want_sure - decoded)[:10]})
+        elif want_sure:
+            ctx.nontrivial("device-decode|" + "+".join(sorted({"fmt%d" % d[2] for d in decoded})))
+            for d in decoded:
+                ctx.note("Device table decoded: format %d" % d[2])
     built = [e for e in hooks.events if e[0] == "built"]
     for e in built:
         ctx.note("lookup-built:%s/type%s" % (e[1], e[3]))
@@ -493,8 +508,9 @@ def judge_program(ctx, prog, texts, label, sample=False):
     for text in texts:
         kind, seq, feats, sc, lg = text[:5]
         loc = text[5] if len(text) > 5 else None
+        ppem = text[6] if len(text) > 6 else None
         try:
-            want = ref.shape(seq, feats, sc, lg, loc=loc)
+            want = ref.shape(seq, feats, sc, lg, loc=loc, ppem=ppem)
         except otlref.Undetermined as e:
             ctx.skip("undetermined:" + str(e))
             continue
@@ -502,7 +518,10 @@ def judge_program(ctx, prog, texts, label, sample=False):
         if loc not in hbs:
             hbs[loc] = HB(data, variations={prog["axis"][0]: loc})
         h = hbs[loc]
+        h.font.ppem = (ppem, ppem) if ppem else (0, 0)
         got = _hb_shape(h, order, seq, feats, sc, lg)
+        if ppem:
+            ctx.note("text shaped at a ppem (Device tables act)")
         if loc is not None:
             ctx.note("text shaped at a non-default axis location")
         ctx.judged()
@@ -530,16 +549,18 @@ def judge_program(ctx, prog, texts, label, sample=False):
         alt = _merged_inline_ligatures(model)
         if alt is not None:
             try:
-                if otlref.Interp(alt).shape(seq, feats, sc, lg, loc=loc) == got:
+                if otlref.Interp(alt).shape(seq, feats, sc, lg, loc=loc, ppem=ppem) == got:
                     cause = "inline-ligature-lookups-merged"
             except otlref.Undetermined:
                 pass
         mech = {"kind": "shape-mismatch", "diff": diff, "cause": cause}
+        if ppem:
+            mech["at"] = "ppem"
         if cause == "unexplained":
             mech["fired"] = "+".join(fired) or "none"
         ctx.violation(mech, "HarfBuzz on the compiled font disagrees with the rules for text %s (features %s, %s/%s): rules say %s, font gives %s"
                       % (" ".join(seq), feats, sc, lg.strip(), want, got),
-                      {"fea": fea[:8000], "text": seq, "features": feats, "script": sc, "lang": lg, "location": loc, "reference": want,
+                      {"fea": fea[:8000], "text": seq, "features": feats, "script": sc, "lang": lg, "location": loc, "ppem": ppem, "reference": want,
                        "harfbuzz": got, "rules_fired_in_reference": trace[:20]})
     # text clauses
     gm = font.getReverseGlyphMap()
@@ -578,8 +599,32 @@ def run_var(case, ctx):
         judge_program(ctx, prog, texts, "gen", sample=(k == 0))
 
 
+def run_reject(case, ctx):
+    """Feature files outside the language (documented limits) must be rejected, not compiled."""
+    from fontTools.feaLib.builder import addOpenTypeFeaturesFromString
+    from vmon.gen import c11_fixed as F
+
+    for label, fea in F.rejected(case["name"]):
+        font = _font_for({})
+        ctx.judged()
+        try:
+            addOpenTypeFeaturesFromString(font, fea)
+            b = io.BytesIO()
+            font.save(b)
+        except Exception as e:
+            ctx.note("rejected %s with %s" % (label.split(":")[0], type(e).__name__))
+            ctx.nontrivial("reject|" + label[:30])
+            continue
+        ctx.violation({"kind": "invalid-program-accepted", "what": label.split(":")[0]},
+                      "a feature file with %s compiled instead of being rejected" % label, {"fea": fea})
+    ctx.sample = {"rejected_programs": [l for l, f in F.rejected(case["name"])]}
+
+
 def run_fixed(case, ctx):
     from vmon.gen import c11_fixed as F
+
+    if case["name"].startswith("reject:"):
+        return run_reject(case, ctx)
 
     prog, texts = F.program(case["name"])
     judge_program(ctx, prog, texts, "fixed", sample=True)
